@@ -806,8 +806,8 @@ func (obj *SparseReal64VectorJointIterator) Index() int {
   return obj.idx
 }
 func (obj *SparseReal64VectorJointIterator) Ok() bool {
-  return !(obj.s1 == nil || obj.s1.GetFloat64() == float64(0)) ||
-         !(obj.s2 == nil || obj.s2.GetFloat64() == float64(0))
+  return !(obj.s1 == nil || isNullScalar(obj.s1)) ||
+         !(obj.s2 == nil || isNullScalar(obj.s2))
 }
 func (obj *SparseReal64VectorJointIterator) Next() {
 next:
@@ -892,9 +892,9 @@ func (obj *SparseReal64VectorJoint3Iterator) Index() int {
   return obj.idx
 }
 func (obj *SparseReal64VectorJoint3Iterator) Ok() bool {
-  return !(obj.s1 == nil || obj.s1.GetFloat64() == float64(0)) ||
-         !(obj.s2 == nil || obj.s2.GetFloat64() == float64(0)) ||
-         !(obj.s3 == nil || obj.s3.GetFloat64() == float64(0))
+  return !(obj.s1 == nil || isNullScalar(obj.s1)) ||
+         !(obj.s2 == nil || isNullScalar(obj.s2)) ||
+         !(obj.s3 == nil || isNullScalar(obj.s3))
 }
 func (obj *SparseReal64VectorJoint3Iterator) Next() {
 next:
